@@ -641,12 +641,9 @@ mod internal {
         /// Remove by index and drop it (by swapping the last one here and reducing the length).
         #[inline]
         pub(crate) unsafe fn remove_index_drop(&mut self, i: usize) {
-            self.item_drop(i);
-            self.len -= 1;
-            if i != self.len {
-                let value = self.item_read(self.len);
-                self.item_write(i, value);
-            }
+            // move the pair out and close the gap before its destructor runs,
+            // so that a panicking destructor cannot leave a dead slot in the map
+            drop(self.remove_index_read(i));
         }
 
         /// Remove by index and return it (by swapping the last one here and reducing the length).
